@@ -10,6 +10,7 @@
 #include <sstream>
 
 #include "events.h"
+#include "harness_int.h"
 #include "model.h"
 
 namespace tsim {
@@ -193,6 +194,24 @@ Verdict judge(const Plan &plan, const sim::Shm *shm, const ChildExit &ex, const 
     add_calls(0, plan.main_ops);
     for (size_t p = 0; p < plan.producers.size(); p++)
         add_calls((int)p + 1, plan.producers[p]);
+
+    // messages logged by the logger thread itself (relog handler): calls of producer 62, discovered
+    // from their invoke events
+    int nested_calls = 0;
+    for (uint32_t i = 0; i < N; i++) {
+        const sim::Event &e = shm->events[i];
+        if (e.kind == E_INVOKE && ((int)e.a >> 12) == kNestedProducer && !calls.count((int)e.a)) {
+            Call c;
+            c.cid = (int)e.a;
+            c.producer = kNestedProducer;
+            c.opidx = (int)e.a & 0xfff;
+            c.op = &nested_op();
+            c.text = expected_text(c.producer, c.opidx, *c.op);
+            calls[c.cid] = c;
+            nested_calls++;
+        }
+    }
+    v.probes["messages_logged_by_logger_thread"] = nested_calls;
 
     std::vector<StopWindow> stops;
     std::vector<std::pair<long, int>> worker_tids; // (event index, tid)
@@ -514,7 +533,9 @@ Verdict judge(const Plan &plan, const sim::Shm *shm, const ChildExit &ex, const 
                              + clip(a.c.attrs) + "'");
                 break;
             }
-            if (x.pretty_node >= 0) {
+            // (messages logged by a logger thread - producer 62 - come from a different thread in every
+            // move/reset cycle; Qt's own messages have no producer: no tag obligations for either)
+            if (x.pretty_node >= 0 && (x.cid >> 12) != kNestedProducer && x.cid >= 0) {
                 std::string tag = (field.empty() || field[0] == ' ') ? "0" : field;
                 auto &m = tags[x.pretty_node];
                 int prod = x.cid >> 12;
@@ -560,9 +581,33 @@ Verdict judge(const Plan &plan, const sim::Shm *shm, const ChildExit &ex, const 
             Call &c = kv.second;
             if (c.invoke < 0)
                 continue;
-            if (c.ret >= 0 && c.n_entry == 0)
+            if (c.ret >= 0 && c.n_entry == 0) {
+                // No obligation (a) for a call made while the handler object was being destroyed
+                // (destructor / exit path already begun: the Logger has withdrawn itself from Qt and
+                // its own mutex is gone - such a message is not accepted), (b) for a call queued for a
+                // logger thread that no completed stop followed (nothing says when it is delivered).
+                bool during_destruction = false, stop_followed = false, async_at_return = false;
+                for (auto &w : stops) {
+                    if ((w.path == 3 || w.path == 4) && c.invoke > w.begin)
+                        during_destruction = true;
+                    if (w.end >= 0 && w.end > c.ret)
+                        stop_followed = true;
+                }
+                {
+                    long last_move = -1, last_stop_end = -1;
+                    for (auto &wt : worker_tids)
+                        if (wt.first < c.ret)
+                            last_move = std::max(last_move, wt.first);
+                    for (auto &w : stops)
+                        if (w.end >= 0 && w.end < c.ret)
+                            last_stop_end = std::max(last_stop_end, w.end);
+                    async_at_return = last_move > last_stop_end;
+                }
+                if (during_destruction || (async_at_return && !stop_followed))
+                    continue;
                 fail(v, "lost",
                      "message " + clip(c.text, 40) + " (call returned) never reached the pipeline");
+            }
             if (c.n_entry > 0 && c.n_exit != c.n_entry)
                 fail(v, "lost", "message " + clip(c.text, 40) + " entered the pipeline but never left it");
         }
